@@ -246,12 +246,14 @@ def eval : Nat → Ctx → T → Except TErr RT
       | .error e => .error e
       | .ok parts => .ok (mk (.tag name) parts)
     | .href url ext cs =>
-      match evalList fuel ctx cs with
+      -- `richtext.HRef(_format_data(url, data), *parts, external=external)`: the arguments are evaluated left to right, the
+      -- URL first, then the (lazy) list of children
+      match eval fuel ctx url with
       | .error e => .error e
-      | .ok parts =>
-        match eval fuel ctx url with
+      | .ok u =>
+        match evalList fuel ctx cs with
         | .error e => .error e
-        | .ok u => .ok (mk (.href (toStr u) ext) parts)
+        | .ok parts => .ok (mk (.href (toStr u) ext) parts)
     | .namePart before tie abbr cs =>
       match evalList fuel ctx cs with
       | .error e => .error e
